@@ -1,5 +1,6 @@
 import Walrus.Proofs.Gc
 import Walrus.Proofs.Module
+import Walrus.Gen.EmitOrder
 
 /-!
 # C02 — emitted binaries always validate and emission never panics
@@ -168,6 +169,34 @@ theorem funcMap_lookup (imp : List Nat) (fs : List OutFunc) (f : Nat)
 theorem referent_of_kept_is_kept (g : GcInfo) (hd : usedFinished g = true) (x y : Ent)
     (hx : Reach (gcSucc g) (gcRoots g).eraseDups x) (hy : y ∈ gcSucc g x) : y ∈ usedSet g :=
   usedSet_closed g hd x y ((closure_is_reach _ _ _ (usedFinished_done g hd) x).2 hx) hy
+
+/-! ### the order of the sections (regenerated from `Module::emit_wasm` on every run) -/
+
+/-- the place of each emission step in the order the binary format prescribes for non-custom
+    sections (type 1 … element 9, data count 12 *before* code 10 and data 11); custom sections (name,
+    producers, DWARF, the rest) may stand anywhere: rank 100 -/
+def sectionRank (step : String) : Option Nat :=
+  if step = "types.emit" then some 1 else if step = "imports.emit" then some 2
+  else if step = "funcs.emit_func_section" then some 3 else if step = "tables.emit" then some 4
+  else if step = "memories.emit" then some 5 else if step = "globals.emit" then some 6
+  else if step = "exports.emit" then some 7 else if step = "start" then some 8
+  else if step = "elements.emit" then some 9 else if step = "data.emit_data_count" then some 10
+  else if step = "funcs.emit" then some 11 else if step = "data.emit" then some 12
+  else if step = "emit_name_section" || step = "producers.emit" || step = "debug.emit" || step = "custom" then some 100
+  else none
+
+def strictlyAscending : List Nat → Bool
+  | a :: b :: r => a < b && strictlyAscending (b :: r)
+  | _ => true
+
+/-- **`emit_wasm` writes the sections in the order the binary format requires**: every step of its
+    body is a known section writer, the non-custom sections come in strictly ascending format order
+    (each at most once), and the custom sections follow in the order the section model assumes
+    (name, producers, DWARF, the module's other custom sections) -/
+theorem emit_order_is_the_binary_format_order :
+    (Gen.emitOrder.mapM sectionRank).map (fun rs => (strictlyAscending (rs.filter (· < 100)), rs.filter (· ≥ 100))) =
+      some (true, [100, 100, 100, 100]) ∧
+    Gen.emitOrder.drop 12 = ["emit_name_section", "producers.emit", "debug.emit", "custom"] := by decide
 
 -- non-vacuity: a lookup that fails in the model is a dangling reference
 example : mapArgs { funcs := [(0, 0)] } [.ref "f" 1] = none := by decide
